@@ -658,6 +658,10 @@ def install(I, mkcls, meth):
     reg("full")(lambda i, a, k: _full(i, a[0], a[1], k.get("dtype", a[2] if len(a) > 2 else None)))
     reg("zeros_like")(lambda i, a, k: _full(i, asarray(i, a[0]).tail, 0.0, k.get("dtype")))
     reg("eye")(lambda i, a, k: mk([[1.0 if r == c else 0.0 for c in range(a[0])] for r in range(a[0])]))
+    # ascontiguousarray / asanyarray: like asarray, an array that already has the requested dtype is returned as it is (no copy)
+    reg("ascontiguousarray")(lambda i, a, k: asarray(i, a[0], k.get("dtype", a[1] if len(a) > 1 else None)))
+    reg("asanyarray")(lambda i, a, k: asarray(i, a[0], k.get("dtype", a[1] if len(a) > 1 else None)))
+    reg("dtype")(lambda i, a, k: Opaque("np.dtype", (norm_dtype(a[0]) if not isinstance(a[0], Opaque) else a[0],)))
     reg("dot")(lambda i, a, k: dot(i, a[0], a[1]))
     reg("matmul")(lambda i, a, k: dot(i, a[0], a[1]))
     reg("cross")(lambda i, a, k: cross(i, a[0], a[1]))
